@@ -75,7 +75,7 @@ def merge(recs, rep, K, prop):
                 break
         per_system[s["system"]] = {"parameters": s["nparams"], "alphabet_values": s["alphabet"], "points": s["points"],
                                    "assignments": s["assignments"], "assignments_run": sum(w["done"] for w in ws),
-                                   "inadmissible_skipped": sum(w["inadmissible"] for w in ws),
+                                   "inadmissible_skipped": sum(w["inadmissible"] for w in ws), "inadmissible_points_skipped": sum(w.get("inadmissible_points", 0) for w in ws),
                                    "completed_deviation_bound": comp, "timed_out": any(w["timed_out"] for w in ws)}
     # violations
     viols = sorted([x for x in recs if x["k"] == "viol"], key=lambda v: (v["ndev"], v["system"], v["fn"]))
